@@ -52,3 +52,53 @@ GLOBAL_FUNC fix_abi_good
     mov     r12, [rsp-8]
     pop     rbx
     ret
+
+; the loop counter update feeds the carry chain: CF of `sub rdx, 1` reaches the next adc
+GLOBAL_FUNC fix_abi_counter_carry
+    xor     eax, eax
+    mov     r9, rdx
+    mov     rdx, [rdi]
+.lp:
+    mov     rax, [rsi]
+    adc     rax, rdx
+    mov     [rdi], rax
+    lea     rsi, [rsi+8]
+    lea     rdi, [rdi+8]
+    sub     r9, 1
+    jnz     .lp
+    sbb     eax, eax
+    ret
+
+; negative twins: a saved carry restored from a setc byte, and CF known to be 0 after jc was not taken
+GLOBAL_FUNC fix_abi_saved_carry
+    xor     eax, eax
+    mov     r9, rdx
+    mov     rdx, [rdi]
+    xor     r8d, r8d
+.lp:
+    add     r8b, -1
+    mov     rax, [rsi]
+    adc     rax, rdx
+    setc    r8b
+    mov     [rdi], rax
+    lea     rsi, [rsi+8]
+    lea     rdi, [rdi+8]
+    sub     r9, 1
+    jnz     .lp
+    movzx   eax, r8b
+    ret
+
+GLOBAL_FUNC fix_abi_cf0
+    mov     r9, rdx
+    mov     rdx, [rdi]
+    sub     r9, 4
+    jc      .small
+    mov     rax, [rsi]
+    adc     rax, rdx
+    mov     [rdi], rax
+    sbb     eax, eax
+    ret
+.small:
+    mov     [rdi], rdx
+    xor     eax, eax
+    ret
